@@ -38,7 +38,7 @@ DEPS: Dict[str, Tuple[str, ...]] = {
     "mux_snref_case": ("mux",), "mux_snref_default": ("mux",), "mux_attrs": ("mux",), "mux_case_nostruct": ("mux",),
     "table_labels": ("table",), "table_semantic": ("table",), "row_struct_snref": ("table",), "row_dop_snref": ("table",),
     "table_row_ref": ("table",), "table_connectors": ("table",), "table_sdgs": ("table",), "table_admin": ("table",), "table_oid": ("table",),
-    "row_attrs": ("table",), "row_sdgs": ("table",), "row_admin": ("table",), "row_names": ("table",),
+    "row_attrs": ("table",), "row_key_text": ("table",), "row_sdgs": ("table",), "row_admin": ("table",), "row_names": ("table",),
     "p_tablekey": ("table",), "p_tablekey_row": ("table",), "p_tablekey_snref": ("table",), "p_tablestruct_snref": ("table", "p_tablekey_snref"),
     "p_tableentry": ("table",), "dyn_spec_base": ("table",), "dyn_spec_ecu": ("table",), "dv_table_snref": ("dv_base", "table"),
     "dv_comm_ref": ("dv_base",), "dv_admin": ("dv_base",), "dv_sdgs": ("dv_base",), "dv_attrs": ("dv_base",), "dv_sw_variables": ("dv_base",),
@@ -330,7 +330,8 @@ def dops(s: "Sel") -> List[Dict[str, Any]]:
         lin["phys_constr"] = dict(lo=lim(0.5, "OPEN"), hi=lim(63, "CLOSED"), scales=[dict(label="pna", lo=lim(60, "OPEN"), hi=lim(63), validity="NOT-VALID")])
     tab_rows = [dict(name="r1", key=1, struct="st_item"), dict(name="r2", key=2, dop="u16le"),
                 dict(name="r3", key=3, struct="st_other", snref=True, feat=("row_struct_snref", "TableRow.structure_snref")),
-                dict(name="r4", key=4, dop="u8", snref=True, feat=("row_dop_snref", "TableRow.dop_snref"))]
+                dict(name="r4", key=4, dop="u8", snref=True, feat=("row_dop_snref", "TableRow.dop_snref")),
+                dict(name="r5", key="05", dop="u8", feat=("row_key_text", "TableRow.key_raw"))]
     tab: Dict[str, Any] = dict(kind="table", name="tab", key_dop="u8", long_name="Table", desc="a table", rows=tab_rows, feat=("table", "DiagDataDictionarySpec.tables"))
     if s.on("table_labels", "Table.key_label"):
         tab.update(key_label="the key", struct_label="the struct")
